@@ -2400,6 +2400,8 @@ fn main() {
     if !det && m("C02.no-wait") { search_no_wait("C02.no-wait"); }
     if m("C17.set-de") { search_stringset("C17.set-de"); }
     if m("C17.set-ser") { search_stringset("C17.set-ser"); }
+    // C08's clause "string sets as objects of empty objects" is carried by the hand-written Serialize of StringHashSet (C17's unit): same search, C08's name
+    if m("C08.stringset-wire") { search_stringset("C08.stringset-wire"); }
     if !det && m("C14.bound") { search_pool_bound("C14.bound"); }
     if !det && m("C14.no-strand") { search_pool_strand("C14.no-strand"); }
     if !det && m("C14.w-monotone") { search_pool_strand("C14.w-monotone"); }
